@@ -49,13 +49,12 @@ VARIABLES prog          \* [policy |-> block, recall |-> block]
 ---------------------------------------------------------------------------------
 (* Programs *)
 
-Simple(ctx) ==
+(* non-finish simple statements of a policy block *)
+Simple ==
   {[t |-> "let"]}
   \cup {[t |-> "call", c |-> c] : c \in BOOLEAN}
-  \cup {[t |-> "check", c |-> c, e |-> "panic"] : c \in BOOLEAN}
-  \cup (IF ctx = "policy"
-        THEN {[t |-> "check", c |-> c, e |-> "recall"] : c \in BOOLEAN} \cup {[t |-> "recall"]}
-        ELSE {})
+  \cup {[t |-> "check", c |-> c, e |-> e] : c \in BOOLEAN, e \in {"panic", "recall"}}
+  \cup {[t |-> "recall"]}
 
 Finishes == {[t |-> "finish", ops |-> o] : o \in OpsMenu}
 
@@ -65,24 +64,48 @@ SizeS(s) == IF s.t = "if" THEN 1 + SizeB(s.a) + SizeB(s.b)
             ELSE 1
 SizeB(b) == IF b = <<>> THEN 0 ELSE SizeS(b[1]) + SizeB(Tail(b))
 
-(* Blocks(n, d, ctx): statement sequences of total size <= n and nesting depth <= d; `finish`
-   only as the last statement of a block (the compiler rejects anything else) *)
-RECURSIVE Blocks(_, _, _)
-Ifs(n, d, ctx) ==
+(* if statements of size <= n whose branches come from Inner; `if c {} ..` is left out *)
+IfsOver(n, Inner) ==
   UNION {{[t |-> "if", c |-> c, a |-> a, b |-> b, els |-> b # <<>>] :
-             c \in BOOLEAN, b \in Blocks(n - 1 - SizeB(a), d - 1, ctx)} :
-          a \in {x \in Blocks(n - 1, d - 1, ctx) : x # <<>>}}
+             c \in BOOLEAN, b \in {y \in Inner : SizeB(y) <= n - 1 - SizeB(a)}} :
+          a \in {x \in Inner : x # <<>> /\ SizeB(x) <= n - 1}}
 Matches(n) ==
   {m \in {[t |-> "match", n |-> k, arms |-> <<a0, a1, ad>>] :
              k \in 0..2, a0 \in MatchArms, a1 \in MatchArms, ad \in MatchArms} : SizeS(m) <= n}
-(* non-finish statements of size <= n *)
-Stmts(n, d, ctx) ==
-  IF n < 1 THEN {}
-  ELSE Simple(ctx) \cup (IF d = 0 \/ n < 2 THEN {} ELSE Ifs(n, d, ctx) \cup Matches(n))
-Blocks(n, d, ctx) ==
-  IF n <= 0 THEN {<<>>}
-  ELSE {<<>>} \cup {<<f>> : f \in Finishes}
-       \cup UNION {{<<s>> \o rest : rest \in Blocks(n - SizeS(s), d, ctx)} : s \in Stmts(n, d, ctx)}
+
+(* blocks of size <= n: empty, a lone finish, or a statement of St followed by a block of the
+   remaining size (prev[m + 1] = the blocks of size <= m); `finish` only in last position *)
+Ext(n, St, prev) ==
+  {<<>>} \cup {<<f>> : f \in Finishes}
+  \cup UNION {{<<s>> \o rest : rest \in prev[n - SizeS(s) + 1]} : s \in {x \in St : SizeS(x) <= n}}
+
+(* The levels are spelled out as constant definitions (TLC evaluates each once, eagerly —
+   hence the guards that leave a level empty when the configuration does not need it):
+   Ld_n = blocks of nesting depth <= d and size <= n.  Up to 4 statements, depth 2. *)
+L0_0 == {<<>>}
+L0_1 == IF (MaxDepth = 0 /\ MaxStmts >= 1) \/ (MaxDepth > 0 /\ MaxStmts > 1) THEN Ext(1, Simple, <<L0_0>>) ELSE {}
+L0_2 == IF (MaxDepth = 0 /\ MaxStmts >= 2) \/ (MaxDepth > 0 /\ MaxStmts > 2) THEN Ext(2, Simple, <<L0_0, L0_1>>) ELSE {}
+L0_3 == IF (MaxDepth = 0 /\ MaxStmts >= 3) \/ (MaxDepth > 0 /\ MaxStmts > 3) THEN Ext(3, Simple, <<L0_0, L0_1, L0_2>>) ELSE {}
+L0_4 == IF MaxDepth = 0 /\ MaxStmts >= 4 THEN Ext(4, Simple, <<L0_0, L0_1, L0_2, L0_3>>) ELSE {}
+Inner0 == CASE MaxStmts = 1 -> L0_0 [] MaxStmts = 2 -> L0_1 [] MaxStmts = 3 -> L0_2 [] OTHER -> L0_3
+St1(n) == Simple \cup IfsOver(n, Inner0) \cup Matches(n)
+L1_0 == {<<>>}
+L1_1 == IF (MaxDepth = 1 /\ MaxStmts >= 1) \/ (MaxDepth > 1 /\ MaxStmts > 1) THEN Ext(1, Simple, <<L1_0>>) ELSE {}
+L1_2 == IF (MaxDepth = 1 /\ MaxStmts >= 2) \/ (MaxDepth > 1 /\ MaxStmts > 2) THEN Ext(2, St1(2), <<L1_0, L1_1>>) ELSE {}
+L1_3 == IF (MaxDepth = 1 /\ MaxStmts >= 3) \/ (MaxDepth > 1 /\ MaxStmts > 3) THEN Ext(3, St1(3), <<L1_0, L1_1, L1_2>>) ELSE {}
+L1_4 == IF MaxDepth = 1 /\ MaxStmts >= 4 THEN Ext(4, St1(4), <<L1_0, L1_1, L1_2, L1_3>>) ELSE {}
+Inner1 == CASE MaxStmts = 1 -> L1_0 [] MaxStmts = 2 -> L1_1 [] MaxStmts = 3 -> L1_2 [] OTHER -> L1_3
+St2(n) == Simple \cup IfsOver(n, Inner1) \cup Matches(n)
+L2_0 == {<<>>}
+L2_1 == IF (MaxDepth = 2 /\ MaxStmts >= 1) \/ (MaxDepth > 2 /\ MaxStmts > 1) THEN Ext(1, Simple, <<L2_0>>) ELSE {}
+L2_2 == IF (MaxDepth = 2 /\ MaxStmts >= 2) \/ (MaxDepth > 2 /\ MaxStmts > 2) THEN Ext(2, St2(2), <<L2_0, L2_1>>) ELSE {}
+L2_3 == IF (MaxDepth = 2 /\ MaxStmts >= 3) \/ (MaxDepth > 2 /\ MaxStmts > 3) THEN Ext(3, St2(3), <<L2_0, L2_1, L2_2>>) ELSE {}
+L2_4 == IF MaxDepth = 2 /\ MaxStmts >= 4 THEN Ext(4, St2(4), <<L2_0, L2_1, L2_2, L2_3>>) ELSE {}
+
+PolicyBlocks ==
+  CASE MaxDepth = 0 -> (CASE MaxStmts = 1 -> L0_1 [] MaxStmts = 2 -> L0_2 [] MaxStmts = 3 -> L0_3 [] MaxStmts = 4 -> L0_4)
+    [] MaxDepth = 1 -> (CASE MaxStmts = 1 -> L1_1 [] MaxStmts = 2 -> L1_2 [] MaxStmts = 3 -> L1_3 [] MaxStmts = 4 -> L1_4)
+    [] MaxDepth = 2 -> (CASE MaxStmts = 1 -> L2_1 [] MaxStmts = 2 -> L2_2 [] MaxStmts = 3 -> L2_3 [] MaxStmts = 4 -> L2_4)
 
 RECURSIVE CanRecallB(_)
 CanRecallS(s) == \/ s.t = "recall"
@@ -91,9 +114,10 @@ CanRecallS(s) == \/ s.t = "recall"
                  \/ s.t = "match" /\ \E i \in 1..3 : CanRecallB(s.arms[i])
 CanRecallB(b) == \E i \in 1..Len(b) : CanRecallS(b[i])
 
+(* a recall block (from the menu; recall blocks cannot recall) only when the policy block can reach it *)
 Programs ==
   UNION {{[policy |-> p, recall |-> r] : r \in (IF CanRecallB(p) THEN RecallMenu ELSE {<<>>})} :
-          p \in Blocks(MaxStmts, MaxDepth, "policy")}
+          p \in PolicyBlocks}
 
 ---------------------------------------------------------------------------------
 (* Finish operations -> MachineIO calls.  F is `fact F[k int]=>{v int}`; initially F[1]=>{1}. *)
